@@ -271,6 +271,22 @@ def run_case(ctx, i, rng):
                     except ValueError as ex:
                         ctx.violation("replace-edit-refused", "remove_child + create_child of the same name %r refused: %s" % (nm_[:30], str(ex)[:100]))
                         return
+        # ... and renames that change nothing but letter case (u1 -> U1): the identifier the first write recorded stays, the
+        #     file now says (rename u1 "U1"), and U1 is what has to come back
+        for l in list(n.libraries):
+            for dd in list(l.definitions):
+                for coll in (list(dd.children), [x for x in dd.cables if not (x.name or "").endswith("]")], list(dd.ports), [dd]):
+                    for x in coll:
+                        if x.name and "EDIF.identifier" in x and x.name.swapcase() != x.name and rng.random() < 0.15:
+                            nm_ = rng.choice([x.name.swapcase(), x.name.upper(), x.name.lower()])
+                            if nm_ == x.name:
+                                continue
+                            try:
+                                x.name = nm_
+                                edits += 1
+                                ctx.count("case_only_renames_after_the_first_write")
+                            except ValueError:
+                                pass
         if edits:
             c4 = canon.canon_edif(n, with_identifiers=False)
             try:
